@@ -1290,7 +1290,8 @@ impl EcmaRegexValidator {
   fn eat_decimal_escape(&mut self) -> bool {
     self.last_int_value = 0;
     if let Some(cp) = self.code_point_with_offset(0) {
-      if cp.is_ascii_digit() {
+      // NonZeroDigit: a decimal escape does not start with `0`
+      if cp.is_ascii_digit() && cp != '0' {
         self.last_int_value = self
           .last_int_value
           .saturating_mul(10)
